@@ -144,9 +144,8 @@ func (r *LogoutRequest) UnmarshalXML(d *xml.Decoder, start xml.StartElement) err
 func (r *LogoutRequest) Bytes() ([]byte, error) {
 	doc := etree.NewDocument()
 	doc.SetRoot(r.Element())
-	doc.WriteSettings = xmlWriteSettings
 
-	buf, err := doc.WriteToBytes()
+	buf, err := xmlToBytes(doc)
 	if err != nil {
 		return nil, err
 	}
